@@ -133,7 +133,11 @@ type SigGen struct {
 
 var largeSizes = []int{4095, 4096, 4097, 65535, 65536, 65537, 131072, 196608, 200000}
 
-var scalarSigs = []string{"b", "c", "C", "w", "W", "i", "I", "l", "L", "f", "d", "s", "s", "m", "r"}
+var scalarSigs = []string{"b", "c", "C", "w", "W", "i", "I", "l", "L", "f", "d", "s", "s", "m", "r", "o"}
+
+// the structure "o" (a reference to an object) stands for on the wire: the
+// description of the object, then the identifiers of its service and of itself
+const objectWireSig = "(({I(Issss[(ss)<MetaMethodParameter,name,description>]s)<MetaMethod,uid,returnSignature,name,parametersSignature,description,parameters,returnDescription>}{I(Iss)<MetaSignal,uid,name,signature>}{I(Iss)<MetaProperty,uid,name,signature>}s)<MetaObject,methods,signals,properties,description>II)<ObjectReference,metaObject,serviceID,objectID>"
 
 // Sig draws a signature of the documented grammar.
 func (g SigGen) Sig(depth int) string {
@@ -205,6 +209,8 @@ func (g SigGen) Data(sig string, b *ref.Buf, depth int) string {
 			b.Str(g.Str())
 		}
 	case 'v':
+	case 'o':
+		g.Data(objectWireSig, b, depth)
 	case 'm':
 		inner := g.Sig(depth - 1)
 		if depth <= 0 {
